@@ -14,7 +14,7 @@ SPEC = dict(
                "that contains the comma (or the reverse); the retrying loader behind the search command is run in-process with the main file unreadable "
                "for its first attempts (repaired from the retry observer) and must still hand over main followed by notebook. A saved pipeline must also be listed by "
                "`wtf pipeline <its unique word>`; an eighth of the homes have names with dots (two in a row), blanks, non-ASCII letters or shell metacharacters. A crash of the save command refutes 'reports success' outright. A second engine saves (as uid 65534 via setpriv) while the existing "
-               "notebook cannot be read or its directory cannot be written: earlier entries must survive whatever save reports.",
+               "notebook cannot be read or its directory cannot be written: earlier entries must survive whatever save reports. Earlier saves are repeated with exactly one thing changed (platform list, pipeline flag, both, category, description, nothing): the notebook holds what was given last.",
     level_note="Keywords/platforms are kept free of commas/quotes so the flag's CSV split is unambiguous; NUL cannot be passed through execve.",
     engines=[dict(name="notebook", shards=T(16, 16), timeout=T(1200, 7200), needs_wtf=True),
              dict(name="notebook-faults", shards=T(8, 16), timeout=T(1200, 7200), needs_wtf=True)],
